@@ -45,6 +45,12 @@ def check_mps(psi, what):
                 lens=[len(psi.qD[i]), len(psi.qD[i + 1])])
         mv = mps_mask_violation(a, np.asarray(psi.qd), np.asarray(psi.qD[i]), np.asarray(psi.qD[i + 1]))
         require(mv == 0, what + ': MPS tensor entry violates the additive quantum number rule', site=i, max_entry=mv)
+        # the library's own predicate (the one its assertions rely on) agrees, and notices a forbidden entry
+        require(bool(ptn.is_qsparse(a, [psi.qd, psi.qD[i], -np.asarray(psi.qD[i + 1])])), what + ': is_qsparse rejects a tensor that obeys the rule', site=i)
+        forb = np.argwhere(np.add.outer(np.add.outer(np.asarray(psi.qd), np.asarray(psi.qD[i])), -np.asarray(psi.qD[i + 1])) != 0)
+        if len(forb):
+            b = np.array(a, dtype=complex); b[tuple(forb[len(forb) // 2])] = 1e-3
+            require(not ptn.is_qsparse(b, [psi.qd, psi.qD[i], -np.asarray(psi.qD[i + 1])]), what + ': is_qsparse accepts a tensor with a forbidden non-zero entry', site=i)
     for i in range(L - 1):
         require(psi.A[i].shape[2] == psi.A[i + 1].shape[1], what + ': neighbouring tensors disagree on the bond dimension', bond=i + 1)
     # the object's own accessors report these dimensions
